@@ -489,6 +489,9 @@ static int sideMarginOf(const Circuit &c, double sideMargin) {
   for (int i = 0; i < c.nbCells(); ++i)
     if (c.cellHeight()[i] > 0) minH = std::min(minH, c.cellHeight()[i]);
   float m = (float)sideMargin * minH;
+  // the harness itself must not overflow where the library would (a margin the parameter check ought to refuse)
+  if (!(m > -2.0e9f)) return -2000000000;
+  if (!(m < 2.0e9f)) return 2000000000;
   return (int)m;
 }
 
